@@ -30,7 +30,7 @@ fn spec() -> Spec {
             Kind { name: "shared_history", quick: 30_000, thorough: 800_000, serial: false },
             Kind { name: "with_shape", quick: 6_000, thorough: 200_000, serial: false },
         ],
-        rule: "value: non-degenerate robot x stack of depth 1..3 in any order from Tool/Base/Frame (uniform rotations and translations; axial tools/frames for the 5-DOF clauses) x q: forward == base*chain*tool in plain matrices, link poses (tool unchanged, base pre-multiplied, frame last), every answer of every inverse entry point lands on the request through the reference composition, continuation ordering and verbatim J6 hold at the outermost level. delegation: the same stacks over a SpyKinematics: for each of the 8 trait methods exactly one inner call of the same method, pose argument == analytically transformed request, scalar/previous arguments bit-identical, results passed through. shared_history: 2-3 stacks of the same wrapper types but other transforms over ONE shared inner robot object, asked the bit-identical joint vector and requested pose in the order A,B,(C,)A,.. on one thread, each judged by its own reference composition. with_shape: KinematicsWithShape is a base + tool stack with a collision filter on top: the same value clauses (forward, links, every answer maps back, continuation ordering at the outermost level) on synthetic cells whose obstacles sit on IK branches of the request. axes: LinearAxis / Gantry forward == base*translation*inner forward. non-trivial = stack has a rotation != identity; distinct = hash(robot, stack, q, method) Workload additions: exactly-identity / rotation-only / translation-only wrappers and tiny rotations; joints resting at exact zeros; kind shared_history = stacks of the same types but other transforms over ONE shared inner robot; kind with_shape = the value clauses through KinematicsWithShape with obstacles on IK branches of the request.",
+        rule: "value: non-degenerate robot x stack of depth 1..3 in any order from Tool/Base/Frame (uniform rotations and translations; axial tools/frames for the 5-DOF clauses) x q: forward == base*chain*tool in plain matrices, link poses (tool unchanged, base pre-multiplied, frame last), every answer of every inverse entry point lands on the request through the reference composition, continuation ordering and verbatim J6 hold at the outermost level. delegation: the same stacks over a SpyKinematics: for each of the 8 trait methods exactly one inner call of the same method, pose argument == analytically transformed request, scalar/previous arguments bit-identical, results passed through. shared_history: 2-3 stacks of the same wrapper types but other transforms over ONE shared inner robot object, asked the bit-identical joint vector and requested pose in the order A,B,(C,)A,.. on one thread, each judged by its own reference composition. with_shape: KinematicsWithShape is a base + tool stack with a collision filter on top: the same value clauses (forward, links, every answer maps back, continuation ordering at the outermost level) on synthetic cells whose obstacles sit on IK branches of the request. axes: LinearAxis / Gantry forward == base*translation*inner forward. non-trivial = stack has a rotation != identity; distinct = hash(robot, stack, q, method) Workload additions: exactly-identity / rotation-only / translation-only wrappers and tiny rotations; joints resting at exact zeros; kind shared_history = stacks of the same types but other transforms over ONE shared inner robot; kind with_shape = the value clauses through KinematicsWithShape with obstacles on IK branches of the request. Rounds 7-9: with_shape built by the library's own constructor incl. rotation-only transforms; yaw-only and far-away bases; J6 arguments of many turns; previous = generating vector plus 1e-7..3e-5 rad.",
         assumptions: vec![
             "5-DOF variants are only judged on stacks whose tools/frames are axial (translation along and rotation about the flange z axis), as the statement presupposes",
             "forward/link tolerance 1e-11*(1+reach); inverse accuracy 1e-6 m / 1e-6 rad + 1e-9",
@@ -66,8 +66,11 @@ fn value(idx: u64, rng: &mut Rng, mon: &mut Mon) {
     let j6 = *rng.pick(&[0.0, 1.0, -PI, q[5], 200.0f64.to_radians(), 400.0f64.to_radians(), -1000.0f64.to_radians(), rng.clone().range(-20.0, 20.0)]);
     let _ = rng.next_u64();
     let mut prev = q;
+    // (a fifth of the previous vectors is the generating one plus 1e-7 .. 3e-5 rad per joint: its pose is within a
+    // tenth of a millimetre of the request without being the request - a finely sampled path)
+    let hair = rng.bool(0.2);
     for j in 0..6 {
-        prev[j] += rng.range(-0.5, 0.5);
+        prev[j] += if hair { rng.sign() * rng.logu(1e-7, 3e-5) } else { rng.range(-0.5, 0.5) };
     }
     // (as previous J6 only inside the documented +-2pi range of previous vectors)
     if rng.bool(0.3) && j6.abs() <= 2.0 * PI {
